@@ -108,6 +108,14 @@ func (t *Table) PutRaw(hkey uint64, value []byte) error {
 	if inuse+t.offset >= t.allocated {
 		return ErrNotEnoughSpace
 	}
+
+	// If we already have the key, retire the previous copy. Otherwise, its
+	// bytes are never accounted as garbage and its offset stays in the scan index.
+	err := t.Delete(hkey)
+	if err != nil && !errors.Is(err, ErrHKeyNotFound) {
+		return err
+	}
+
 	t.hkeys[hkey] = t.offset
 	t.offsetIndex.Add(t.offset)
 	copy(t.memory[t.offset:], value)
